@@ -42,6 +42,10 @@ type overlapFamily struct {
 	k     int
 	dists [][]uint8 // per feature (spec order): set of files holding it, bit j = file j
 	group int       // distributions per case
+	// probeMaxExtra: the probed-between-merges variant is run for the
+	// distributions with at most this many extra copies (sum of the set sizes
+	// minus the number of features); < 0 = all
+	probeMaxExtra int
 }
 
 func (o *overlapFamily) cases() int64 {
@@ -220,6 +224,11 @@ func (sp *space) runOverlapCase(c *combo, idx int64) kit.Result {
 		}
 		cc := &caseCtx{sp: sp, c: c, files: files, r: &r, seen: seen,
 			label: fmt.Sprintf("overlapping files, feature -> files %s", masksString(d, o.k))}
+		extra := -len(d)
+		for _, m := range d {
+			extra += bits.OnesCount8(m)
+		}
+		cc.noProbes = o.probeMaxExtra >= 0 && extra > o.probeMaxExtra
 		if di == lo && idx%61 == 0 {
 			r.Sample = map[string]interface{}{"family": "overlap", "scheme": c.scheme.Name, "world": c.world.name, "files": cc.filesString()}
 		}
@@ -268,7 +277,18 @@ func (cc *caseCtx) runOverlapDist() {
 			cc.violate("overlap:merge-error", "merge order %v: %v", order, err)
 			continue
 		}
-		cc.compareOverlap(fmt.Sprintf("overlapping plain builds, load order %v", order), w, datas, order, exp, len(union) != len(cc.c.spec), holders, keptFiles)
+		base := cc.compareOverlap("", fmt.Sprintf("overlapping plain builds, load order %v", order), w, datas, order, exp, len(union) != len(cc.c.spec), holders, keptFiles, nil, "")
+		if cc.noProbes {
+			cc.r.Count("overlap:probed-variant-not-run(more-extra-copies-than-the-bound)", 1)
+			continue
+		}
+		how := fmt.Sprintf("overlapping plain builds, load order %v, probed between merges", order)
+		pw, suffix, err := cc.mergeProbed(how, datas, order, keptFiles, nil, true)
+		if err != nil {
+			cc.violate("overlap:merge-error"+suffix, "%s: %v", how, err)
+			continue
+		}
+		cc.compareOverlap("+probes", how, pw, datas, order, exp, len(union) != len(cc.c.spec), holders, keptFiles, base, suffix)
 	}
 }
 
@@ -308,8 +328,9 @@ func (cc *caseCtx) overlapVacuity(keptFiles []wk.Spec) {
 	}
 }
 
-func (cc *caseCtx) compareOverlap(how string, w *compact.World, datas [][]byte, order []int, exp *overlapExpect, lossy bool, holders map[b6.FeatureID]int, keptFiles []wk.Spec) {
+func (cc *caseCtx) compareOverlap(variant, how string, w *compact.World, datas [][]byte, order []int, exp *overlapExpect, lossy bool, holders map[b6.FeatureID]int, keptFiles []wk.Spec, baseline map[string]bool, suffix string) map[string]bool {
 	cc.r.Evals++
+	badSet := map[string]bool{}
 	ids := wk.Universe(cc.c.scheme)
 	got := wk.DumpWorld(w, overlapDumpOptions(cc.c.scheme))
 	byIDHas(got, datas, order, ids)
@@ -351,10 +372,15 @@ func (cc *caseCtx) compareOverlap(how string, w *compact.World, datas [][]byte, 
 			cc.r.Count("sections-differing-from-model-and-single-file(which-disagree):"+wk.SectionClass(s), 1)
 		}
 		bad++
-		cc.violate(cc.classifyOverlap(s, g, mv, order, holders, keptFiles),
+		badSet[s] = true
+		if baseline != nil && baseline[s] {
+			cc.r.Count("probed-world:same-difference-as-loaded-in-one-go", 1)
+			continue
+		}
+		cc.violate(cc.classifyOverlap(s, g, mv, order, holders, keptFiles)+suffix,
 			"%s: section %s\n    merged:      %s\n    single-file: %s\n    model:       %s", how, s, g, sv, mv)
 	}
-	out := fmt.Sprintf("overlap:%d-files", len(cc.files))
+	out := fmt.Sprintf("overlap%s:%d-files", variant, len(cc.files))
 	if lossy {
 		out += ":lossy"
 	} else {
@@ -371,6 +397,7 @@ func (cc *caseCtx) compareOverlap(how string, w *compact.World, datas [][]byte, 
 		out += ":ok"
 	}
 	cc.r.AddOutcome(out)
+	return badSet
 }
 
 // classifyOverlap names the failing call and where the queried ID lives.
